@@ -5,13 +5,13 @@ preceding; invariants Composition - chain == composition of its stages - and NoL
 over all abstract filter stages) and spec/ChainTrace.tla, which validates recorded runs: the records
 each member was actually shown must equal Chain!Input, its manifest must name the right actual
 input, and every $name.variables.v[.key] / $name.headers.h reference must evaluate to what
-Chain's RefVariable/RefHeader give for the referenced member's most recent run. Every stage's own
-behaviour on its input is validated by RunTrace against that required input."""
+Chain's RefVariable/RefHeader give for the referenced member's most recent run. Every stage's run in
+its chain must be the run of that csvpath alone over the required input (spec/SameRun.tla)."""
 import json
 import os
 import random
 
-from lib import common, gen, grouprun, lang, pharness, runner, runtrace, scratch
+from lib import common, gen, grouprun, lang, pharness, runner, runtrace, samerun, scratch
 from lib.runner import OutOfModel, txt
 from lib.tlc import run_tlc, require_ok, MachineryError
 
@@ -69,7 +69,7 @@ def _chain(args):
     archive = cp.config.archive_path
     rd = pharness.run_dirs(archive, "g")[-1]
     named_file = cp.file_manager.get_named_file("data")
-    stages, traces = [], []
+    stages, traces, same = [], [], []
     prev_returned = None
     for i, mc in enumerate(members):
         ev = rec.members[i]["events"]
@@ -94,6 +94,11 @@ def _chain(args):
         except OutOfModel:
             return {"oom": True}
         traces.append(tr)
+        # the stage alone over the input Chain.tla requires: its run in the chain must be that run (SameRun.tla)
+        alone, _ = runtrace.run_case({"tid": idx * 10 + i + 5000000, "prog": mc["prog"], "records": [list(r) for r in required], "cfg": dict(mc["cfg"])}, "collect")
+        if alone is None:
+            return {"oom": True}
+        same.append(samerun.case(idx * 10 + i, alone, [samerun.other(tr, "same", lines=False, unmatched=False)]))
         prev_returned = returned
     # a member that stopped before the end of its input was shown only a prefix: compare prefixes
     enc_stages = []
@@ -101,7 +106,7 @@ def _chain(args):
         req = _lines_enc(s["_required"])
         enc_stages.append({"prec": s["prec"], "shown": s["shown"], "returned": s["returned"], "src": s["src"], "nshown": s["_nshown"]})
     case = {"tid": idx, "kind": "chain", "file": _lines_enc(fs.records), "stages": enc_stages}
-    return {"case": case, "traces": traces, "info": info}
+    return {"case": case, "traces": traces, "info": info, "same": same}
 
 
 def _var_targets(prog):
@@ -264,7 +269,7 @@ def main(tier):
     nch, nref = (80, 90) if tier == "quick" else (1500, 1200)
     outs = common.pmap(_chain, [(common.seed(), i) for i in range(nch)], initializer=scratch.enter_scratch, chunksize=2)
     outs += common.pmap(_refs, [(common.seed(), 100000 + i) for i in range(nref)], initializer=scratch.enter_scratch, chunksize=2)
-    cases, traces, infos, oom, skipped = [], [], {}, 0, 0
+    cases, traces, infos, oom, skipped, same = [], [], {}, 0, 0, []
     for o in outs:
         if o.get("oom"):
             oom += 1
@@ -281,19 +286,25 @@ def main(tier):
                 cases.append(o["extra_case"])
                 infos[o["extra_case"]["tid"]] = dict(o["info"], replay_by_reference=True)
             traces += o["traces"]
-    # stage/member behaviour on the required input
-    verdicts = {}
+            same += o.get("same", [])
+            for c in o.get("same", []):
+                infos.setdefault(("same", c["tid"]), o["info"])
+    # stage behaviour on the required input: the stage's run in the chain is its run alone over that input
+    if same:
+        rs, sv = samerun.validate(same)
+        rep.add_tlc("SameRun: every stage in its chain against the stage alone over the input Chain.tla requires", rs)
+        for c in same:
+            v = sv[c["tid"]]
+            if v["verdict"] != "ok":
+                rep.violation({"kind": "stage-is-not-its-run-over-the-required-input", "field": v["verdict"], "at_call": v.get("expected"),
+                               "stage": c["tid"] % 10, "info": infos.get(("same", c["tid"]))})
+    # informational: the same traces against the run machine (what a run should be is C01/C03/C04/C13's business)
+    rejected_n = 0
     if traces:
-        res, verdicts = runtrace.validate(traces)
-        rep.add_tlc("RunTrace: every stage on the input Chain.tla requires", res)
-        rejected = [t for t in traces if verdicts[t["tid"]][0] != "ok"]
-        if rejected:
-            res2, v2 = runtrace.validate(rejected, dev=("AboveCellsAsText", "LtIsLe"))
-            rep.add_tlc("RunTrace with the deviations of C01's known findings", res2)
-            for t in rejected:
-                if v2[t["tid"]][0] != "ok":
-                    rep.violation({"kind": "stage-trace-rejected", "field": verdicts[t["tid"]][0], "at": verdicts[t["tid"]][1],
-                                   "info": infos.get(t["tid"] // 10) or infos.get(t["tid"])})
+        res, verdicts = runtrace.validate(traces, dev=("AboveCellsAsText", "LtIsLe"))
+        rep.add_tlc("RunTrace (informational): every stage on the input Chain.tla requires", res)
+        rejected_n = sum(1 for t in traces if verdicts[t["tid"]][0] != "ok")
+    rep.extra["stage_traces_rejected_by_the_run_machine_not_judged_here"] = rejected_n
     if cases:
         base = scratch._base()
         path = os.path.join(base, "ctraces.ndjson")
